@@ -26,6 +26,10 @@ def run(run):
         durations = wrapper_shape(run, f, sp)
         error_mapping(run, f, sp, durations)
         retryable(run, f)
+        # "the blocking variants given a timeout return by their deadline": every Some(d) must reach the timeout primitive
+        # with that d (C17 rule O17.2: None => no-timeout primitive, Some(d) => timeout primitive with d)
+        from rules import c17
+        c17.dispatch(run, f)
 
 
 def wrapper_shape(run, f, sp):
